@@ -1564,6 +1564,30 @@ def decomposition_checks(ctx, cases):
         if cross is None or isinstance(nl, str) or isinstance(a1, str) or isinstance(a2, str) or \
                 nl[0][0] != a1[0][0] + a2[0][0] + cross:
             bad.append(("n_links", f"n_links={nl} internal={a1},{a2} cross={cross}"))
+        if any(any(r) for r in c.A):
+            # theorem apl_decomposition: Network.average_path_length(link_attribute) is the pooled
+            # mean of the four path-length blocks of the bipartition
+            try:
+                with warnings.catch_warnings():
+                    warnings.simplefilter("ignore")
+                    with np.errstate(all="ignore"):
+                        with contextlib.redirect_stdout(io.StringIO()):
+                            whole = float(net.average_path_length("la"))
+                            B = [np.array(net.internal_path_lengths(L1, "la"), dtype=float),
+                                 np.array(net.cross_path_lengths(L1, L2, "la"), dtype=float),
+                                 np.array(net.cross_path_lengths(L2, L1, "la"), dtype=float),
+                                 np.array(net.internal_path_lengths(L2, "la"), dtype=float)]
+                S = sum(float(b[np.isfinite(b)].sum()) for b in B)
+                U = sum(int(np.isinf(b).sum()) for b in B)
+                norm = c.n * (c.n - 1) - U
+                okp = (norm == 0 and not math.isfinite(whole)) or (
+                    norm != 0 and abs(whole - S / norm) <= 1e-9 * max(2.0 ** -40, abs(S / norm)))
+                what = f"average_path_length('la')={whole} blocks: sum={S} inf={U}"
+            except Exception as e:  # noqa
+                okp, what = False, "raise:" + type(e).__name__
+            ctx.count("relation:bipartition-apl-decomposition")
+            if not okp:
+                bad.append(("average_path_length", what))
         for nm, what in bad:
             ctx.fail(sig(nm, "bipartition-decomposition", c),
                      f"Network.{nm} is not the sum of the internal and the cross quantity of the "
